@@ -491,6 +491,18 @@ def r19_11(ctx: Ctx) -> None:
     (os.path.samestat/samefile/sameopenfile, directly or in a method of the class) - otherwise the half-written archive becomes one of
     its own members and `x` yields the input tree plus a bogus file."""
     f = shared.szf(ctx, "_writeall")
+    _cls = ctx.prog.cls("SevenZipFile", "py7zr")
+
+    def body_of(m):
+        """the nodes of a method and of the methods of the class it calls on self (one level: helpers the identity test was split into)"""
+        out = list(walk(m.node))
+        for x in list(out):
+            if isinstance(x, ast.Call) and isinstance(x.func, ast.Attribute) and norm(x.func.value) == "self":
+                h = ctx.prog.method(_cls, x.func.attr)
+                if h is not None and h is not m:
+                    out += list(walk(h.node))
+        return out
+
     def is_file_arm(t: ast.AST) -> bool:
         alts = t.values if isinstance(t, ast.BoolOp) and isinstance(t.op, ast.Or) else [t]
         return any(isinstance(a_, ast.Call) and attr_tail(a_) == "is_file" for a_ in alts)
@@ -514,13 +526,13 @@ def r19_11(ctx: Ctx) -> None:
                     ok = True
                 elif isinstance(cd.func, ast.Attribute) and norm(cd.func.value) == "self":
                     m = ctx.prog.method(ctx.prog.cls("SevenZipFile", "py7zr"), cd.func.attr)
-                    if m is not None and any(isinstance(x, ast.Call) and attr_tail(x) in SAME_FILE for x in walk(m.node)) and any(
-                            isinstance(x, ast.Attribute) and norm(x) in ("self.fp", "self.filename") for x in walk(m.node)):
+                    if m is not None and any(isinstance(x, ast.Call) and attr_tail(x) in SAME_FILE for x in body_of(m)) and any(
+                            isinstance(x, ast.Attribute) and norm(x) in ("self.fp", "self.filename") for x in body_of(m)):
                         ok = True  # an identity test in a method that looks at the archive's own handle(s) / name
             if ok:
                 # `c -v SIZE DIR/out DIR`: the archive is a SET of files; the identity test looks at the volumes too (a MultiVolume has no fileno())
                 mv = any(isinstance(cd2, ast.Call) and isinstance(cd2.func, ast.Attribute) and norm(cd2.func.value) == "self" and (m2 := ctx.prog.method(ctx.prog.cls("SevenZipFile", "py7zr"), cd2.func.attr)) is not None
-                         and any(isinstance(x, ast.Attribute) and x.attr in ("MultiVolume", "_files") or (isinstance(x, ast.Constant) and x.value == "_files") for x in walk(m2.node)) for cd2 in negs if isinstance(cd2, ast.Call))
+                         and any(isinstance(x, ast.Attribute) and x.attr in ("MultiVolume", "_files") or (isinstance(x, ast.Constant) and x.value == "_files") for x in body_of(m2)) for cd2 in negs if isinstance(cd2, ast.Call))
                 direct = any(isinstance(cd2, ast.Call) and attr_tail(cd2) in SAME_FILE for cd2 in negs)
                 ctx.check(mv or direct, "R19.11", f, wcall, "the identity test covers the volumes of a multi-volume archive",
                           "the test 'is this the archive being written' asks the handle for fileno(), which a MultiVolume answers with RuntimeError -> 'no': `c -v 1m DIR/out DIR` stores "
@@ -613,7 +625,31 @@ def r19_14(ctx: Ctx) -> None:
     ctx.floor("R19.14", n, 2, "calls of status-returning runners inside Cli")
 
 
+def r19_16(ctx: Ctx) -> None:
+    """`x` exits non-zero for damaged data also when the only digest the archive carries is the CRC of the packed stream (no folder or member
+    CRC: legal): extraction never looks at packed-stream CRCs, test() does.  run_extract calls `<archive>.test()` and returns non-zero on its
+    False outcome, on a path that comes before the successful `return 0`."""
+    f = _cli(ctx, "run_extract")
+    cfg = cfg_of(f.node)
+    ok = False
+    for t in cfg.nodes:
+        if t.kind != "test":
+            continue
+        for a, pol in q.atoms(t.ast, True):
+            if pol and isinstance(a, ast.Compare) and isinstance(a.left, ast.Call) and attr_tail(a.left) == "test" and isinstance(a.ops[0], ast.Is) \
+                    and isinstance(a.comparators[0], ast.Constant) and a.comparators[0].value is False:
+                te = next((e for e in t.succ if e.kind == "true"), None)
+                if te is not None and any(isinstance(n_.ast, ast.Return) and not (isinstance(n_.ast.value, ast.Constant) and n_.ast.value.value in (0, None))
+                                          for n_ in cfg.reachable_from(te) if n_.kind == "stmt" and n_.ast is not None) and not any(
+                        isinstance(n_.ast, ast.Return) and isinstance(n_.ast.value, ast.Constant) and n_.ast.value.value == 0 for n_ in cfg.reachable_from(te) if n_.kind == "stmt" and n_.ast is not None):
+                    ok = True
+    ctx.check(ok, "R19.16", f, f.node, "`x` consults the packed-stream CRCs for members that have no CRC of their own",
+              "run_extract never calls test(): an archive whose only digest is the CRC of its packed stream (a Copy folder without folder or member CRC), with one data byte flipped, "
+              "makes `x` exit 0 and write the wrong bytes, while `t` exits 1", construct="x ignores packed-stream CRCs")
+
+
 def run(ctx: Ctx) -> None:
+    r19_16(ctx)
     r19_14(ctx)
     c04.r04_17(ctx, rule="R19.15")  # `x` does not exit 0 over a damaged member: the CRC comparison asks `is not None`, not truth (a stored CRC of 0 is a CRC)
     r19_13(ctx)
